@@ -356,6 +356,23 @@ pub fn directed() -> Vec<Trace> {
             }
         }
     }
+    // every pool expression (incl. the regression section): getters in varying order, as-is and set again, two configurations
+    for (ci, cfg) in [("en", "ClearSpeak", "Nemeth"), ("es", "SimpleSpeak", "UEB"), ("vi", "ClearSpeak", "Vietnam")].iter().enumerate() {
+        let mut t = Trace::new("C10", "C10");
+        t.origin = format!("directed every-pool-expression {:?}", cfg);
+        let mut s = vec![Step::Call(Op::SetRulesDir(MOUNT_A.into())), Step::Call(Op::SetPref("Language".into(), cfg.0.into())), Step::Call(Op::SetPref("SpeechStyle".into(), cfg.1.into())), Step::Call(Op::SetPref("BrailleCode".into(), cfg.2.into()))];
+        for e in 0..pools::VALID_EXPRS.len() {
+            s.push(Step::Call(Op::SetMathml(ExprRef::Pool(e))));
+            let k = e + ci;
+            s.push(Step::Check { kind: "checkpoint".into(), args: json!({"reset": false, "order": [k % 3, (k + 1) % 3, k % 3, (k + 2) % 3]}) });
+            if e >= pools::REGRESSION_FROM {
+                s.push(Step::Call(Op::Cmd("ZoomIn".into())));
+                s.push(Step::Check { kind: "checkpoint".into(), args: json!({"reset": true, "order": [(k + 2) % 3, k % 3]}) });
+            }
+        }
+        t.sessions = vec![s];
+        v.push(t);
+    }
     // Language=Auto / LanguageAuto flows
     let mut t = Trace::new("C10", "C10");
     t.origin = "directed language-auto-flows".into();
